@@ -1253,6 +1253,34 @@ def generate(template_path, repo, out_path, canary=False):
         pos = m.end()
     out.append(tpl[pos:])
     gen = "".join(out)
+    # R23: a module-level `const NAME` of the SAME source file that an extracted function / fragment names and the unit does not
+    # define is copied along (a refactor that gives a literal a name must not turn the unit into a compile error)
+    extra = []
+    have = set(re.findall(r"\b(?:const|static)\s+([A-Z][A-Z0-9_]+)\b", gen))
+    for it in report["items"]:
+        if it.get("kind") not in ("fn", "fragment") or "gen_span" not in it:
+            continue
+        a, b = it["gen_span"]
+        names = set()
+        for mm in re.finditer(r"(?<![\w])([A-Z][A-Z0-9_]{2,})\b(?!\s*::)", gen[a:b]):
+            pre = gen[max(a, a + mm.start() - 2):a + mm.start()]
+            if pre.endswith("::") or (pre.endswith(".") and not pre.endswith("..")):
+                continue
+            names.add(mm.group(1))
+        for name in sorted(names):
+            if name in have:
+                continue
+            try:
+                text, _segs, _src = gen_const(repo, dict(file=it["file"], name=name), "", dict(items=[], trusted=[]))
+            except (LostAnchor, KeyError, IndexError):
+                continue
+            have.add(name)
+            extra.append(f"// (R23: const {name} copied from {it['file']} because an extracted function names it)\npub {text.lstrip()}" if not text.lstrip().startswith("pub") else f"// (R23: const {name} copied from {it['file']})\n{text}")
+            report.setdefault("auto_consts", []).append(f"{it['file']}::{name}")
+    if extra:
+        k = gen.rfind("} // verus!")
+        if k >= 0:
+            gen = gen[:k] + "\n".join(extra) + "\n" + gen[k:]
     with open(out_path, "w") as fh:
         fh.write(gen)
     # trusted-base scan
